@@ -278,6 +278,62 @@ def driveC17 (args : List String) : String :=
     body ++ " =>" ++ (if res == 0 then "ok" else "short")
   | _ => "bad-op"
 
+def argVal (a : String) (key : String) : String := (a.drop (key.length + 1)).toString
+
+def driveC16 (args : List String) : String :=
+  match args with
+  | ["unary", svc, m, t, decor, req] =>
+    match hexArg (argVal svc "svc"), (argVal req "req").toNat? with
+    | some svcB, some rq =>
+      let mname := argVal m "m"
+      let info : Bytes := [47] ++ svcB ++ [47] ++ Prim.str mname
+      let specs := let d := argVal decor "decor"; if d.isEmpty then [] else d.splitOn ","
+      let base : InterceptServer.MethodHandler := InterceptServer.generated info InterceptServer.appEcho
+      let (h, _) := specs.foldl (fun (acc : InterceptServer.MethodHandler × Nat) sp =>
+        let (h, i) := acc
+        let c := sp.toList.getD 0 '-'
+        let h' := if c == 'p' then InterceptServer.decorateUnary (InterceptServer.dPass i) h
+                  else if c == 's' then InterceptServer.decorateUnary (InterceptServer.dShort i) h
+                  else if c == 'r' then InterceptServer.decorateUnary (InterceptServer.dRewrite i) h
+                  else h
+        (h', i + 1)) (base, 0)
+      let tr : Option InterceptServer.UInt := if argVal t "t" == "p" then some InterceptServer.tPass else none
+      let (evs, resp) := h rq tr
+      let fm := strOfBytes info
+      let showEv : InterceptServer.Ev → String
+        | .transport _ r => s!"T({fm},{r})"
+        | .decor l _ r => s!"D{l}({fm},{r})"
+        | .app r => s!"app({r})"
+      let short := evs.all (fun e => match e with | .app _ => false | _ => true)
+      " ".intercalate (evs.map showEv) ++ " =>" ++ (if short then "short" else s!"resp({resp})")
+    | _, _ => "bad-op"
+  | ["stream", svc, m, cs, ss, t, decor] =>
+    match hexArg (argVal svc "svc") with
+    | some svcB =>
+      let sd : InterceptServer.StreamDesc := ⟨Prim.str (argVal m "m"), argVal cs "cs" == "1", argVal ss "ss" == "1", 0⟩
+      let info := InterceptServer.streamInfo svcB sd
+      let specs := let d := argVal decor "decor"; if d.isEmpty then [] else d.splitOn ","
+      let app : InterceptServer.SHandler := fun _ => ([.app], 0)
+      let (h, _) := specs.foldl (fun (acc : InterceptServer.SHandler × Nat) sp =>
+        let (h, i) := acc
+        let c := sp.toList.getD 1 '-'
+        let h' : InterceptServer.SHandler :=
+          if c == 'p' then InterceptServer.decorateStream (fun inf hh => let (es, r) := hh (); (.decor i inf :: es, r)) info h
+          else if c == 's' then InterceptServer.decorateStream (fun inf _ => ([.decor i inf], 1)) info h
+          else h
+        (h', i + 1)) (app, 0)
+      let tr : Option InterceptServer.SInt :=
+        if argVal t "t" == "p" then some (fun inf hh => let (es, r) := hh (); (.transport inf :: es, r)) else none
+      let (evs, res) := InterceptServer.dispatchStream tr info h
+      let showInfo := fun (i : InterceptServer.StreamInfo) => s!"({strOfBytes i.fullMethod},{b01 i.isClientStream},{b01 i.isServerStream})"
+      let showEv : InterceptServer.SEv → String
+        | .transport i => "T" ++ showInfo i
+        | .decor l i => s!"D{l}" ++ showInfo i
+        | .app => "app"
+      " ".intercalate (evs.map showEv) ++ " =>" ++ (if res == 0 then "ok" else "short")
+    | none => "bad-op"
+  | _ => "bad-op"
+
 def dispatch (line : String) : String :=
   match (line.splitOn " ").filter (· ≠ "") with
   | "C14" :: rest => driveC14 rest
@@ -288,6 +344,7 @@ def dispatch (line : String) : String :=
   | "C13" :: rest => driveC13 rest
   | "C15" :: rest => driveC15 rest
   | "C17" :: rest => driveC17 rest
+  | "C16" :: rest => driveC16 rest
   | _ => "bad-op"
 
 partial def loop (h : IO.FS.Stream) (out : IO.FS.Stream) : IO Unit := do
